@@ -477,6 +477,7 @@ def divDischarge : List (Nat × Reason) := [
   (1508675323, .localGuard), -- patch.pyMod: ((x%y)+y) % y               (y = 2 or Z = 2*min(N,M)+2 >= 2; rewritten by fix 4489729)
   (1299052647, .localGuard), -- patch.pyMod: x % y                       (same divisor)
   (886030591, .localGuard),  -- recv.GCDuint32: a % b                    (inside `for b != 0`)
+  (1982089617, .localGuard), -- recv.mulDiv: / int64(den)                (after `if den == 0 { return t }`; fix 3b64431)
   (3452655562, .recvGuard),  -- SegmentHandlerFunc: / segDur             (under the callback's recover)
   (3346616588, .recvGuard),  --   / timeScaleIn
   (3718164734, .recvGuard),  --   / masterTimescale
